@@ -1,0 +1,153 @@
+//go:build verif
+
+// Contracts for package graph, read by /verif/govc (contract-based deductive
+// verification). This file contains no Go declarations; it is compiled only
+// with the build tag "verif" and even then adds nothing to the package.
+// Format: see /verif/DESIGN.md §2.2.
+
+package graph
+
+//@ sort Outer = map[interface{}]map[interface{}]int
+//@ sort Inner = map[interface{}]int
+//@ sort HashM = map[interface{}]Vertex
+//@ sort VisitM = map[interface{}]struct{}
+
+// ---------------------------------------------------------------- vocabulary
+
+//@ uf hcm(v any) any
+//@ ghost hc(v any) any = ite(typeis(v, VertexHashable), hcm(v), v)
+
+//@ ghost zerog(g *Graph) bool = g.adjacencyOut == nil && g.adjacencyIn == nil && g.hash == nil
+//@ ghost isvert(g *Graph, k any) bool = has(g.hash, k)
+//@ ghost edge(g *Graph, a any, b any) bool = has(g.adjacencyOut, a) && has(g.adjacencyOut[a], b)
+//@ ghost wgt(g *Graph, a any, b any) int = g.adjacencyOut[a][b]
+//@ ghost infoot(g *Graph, m Inner) bool = exists(k, any, has(g.hash, k) && (g.adjacencyOut[k] == m || g.adjacencyIn[k] == m))
+
+// wf: the representation invariant of DESIGN.md §3.1.
+//@ ghost wf(g *Graph) bool =
+//@     g.adjacencyOut != nil && g.adjacencyIn != nil && g.hash != nil && g.adjacencyOut != g.adjacencyIn
+//@     && forall(k, any, has(g.adjacencyOut, k) == has(g.hash, k) && has(g.adjacencyIn, k) == has(g.hash, k))
+//@     && forall(k, any, imp(has(g.hash, k), g.adjacencyOut[k] != nil && g.adjacencyIn[k] != nil))
+//@     && forall(a, any, b, any, imp(has(g.hash, a) && has(g.hash, b) && a != b, g.adjacencyOut[a] != g.adjacencyOut[b] && g.adjacencyIn[a] != g.adjacencyIn[b]))
+//@     && forall(a, any, b, any, imp(has(g.hash, a) && has(g.hash, b), g.adjacencyOut[a] != g.adjacencyIn[b]))
+//@     && forall(a, any, b, any, imp(has(g.hash, a) && has(g.adjacencyOut[a], b), has(g.hash, b) && has(g.adjacencyIn[b], a) && g.adjacencyIn[b][a] == g.adjacencyOut[a][b]))
+//@     && forall(a, any, b, any, imp(has(g.hash, b) && has(g.adjacencyIn[b], a), has(g.hash, a) && has(g.adjacencyOut[a], b)))
+//@ ghost wf0(g *Graph) bool = zerog(g) || wf(g)
+
+// frame: nothing outside g's own footprint (as of the old state) changes.
+//@ ghost frameG(g *Graph) bool =
+//@     forall(x, *Graph, imp(x != g, x.adjacencyOut == old(x.adjacencyOut) && x.adjacencyIn == old(x.adjacencyIn) && x.hash == old(x.hash)))
+//@     && forall(m, Outer, imp(old(allocated(m)) && m != old(g.adjacencyOut) && m != old(g.adjacencyIn), unchanged(m)))
+//@     && forall(m, HashM, imp(old(allocated(m)) && m != old(g.hash), unchanged(m)))
+//@     && forall(m, Inner, imp(old(allocated(m)) && !old(infoot(g, m)), unchanged(m)))
+// the three references of an initialised graph never change
+//@ ghost sameRefs(g *Graph) bool = imp(!old(zerog(g)), g.adjacencyOut == old(g.adjacencyOut) && g.adjacencyIn == old(g.adjacencyIn) && g.hash == old(g.hash))
+//@ ghost sameVerts(g *Graph) bool = forall(k, any, has(g.hash, k) == old(has(g.hash, k)) && g.hash[k] == old(g.hash[k]))
+//@ ghost sameEdges(g *Graph) bool = forall(a, any, b, any, edge(g, a, b) == old(edge(g, a, b)) && imp(edge(g, a, b), wgt(g, a, b) == old(wgt(g, a, b))))
+
+// ---------------------------------------------------------------- vertex.go
+
+//@ extern (VertexHashable).Hashcode :: (h any) any
+//@   pure
+//@   ensures result == hcm(h)
+
+//@ func hashcode
+//@   pure
+//@   ensures result == hc(v)
+
+//@ func VertexID
+//@   pure
+//@   ensures result == hc(v)
+
+// ---------------------------------------------------------------- graph.go
+
+//@ func (*Graph).init
+//@   requires wf0(g)
+//@   ensures  wf(g)
+//@   ensures  sameRefs(g)
+//@   ensures  imp(old(zerog(g)), forall(k, any, !has(g.hash, k)) && fresh(g.hash) && fresh(g.adjacencyOut) && fresh(g.adjacencyIn))
+//@   ensures  frameG(g)
+//@   ensures  forall(m, Outer, imp(old(allocated(m)), unchanged(m)))
+//@   ensures  forall(m, HashM, imp(old(allocated(m)), unchanged(m)))
+//@   assigns  Graph.adjacencyOut, Graph.adjacencyIn, Graph.hash, Outer, HashM
+
+//@ func (*Graph).Add
+//@   requires wf0(g)
+//@   ensures  wf(g) && sameRefs(g)
+//@   ensures  result == v
+//@   ensures  [verts] forall(k, any, has(g.hash, k) == (old(has(g.hash, k)) || k == hc(v)))
+//@   ensures  [keeps-existing] forall(k, any, imp(old(has(g.hash, k)), g.hash[k] == old(g.hash[k])))
+//@   ensures  [new-rep] imp(!old(has(g.hash, hc(v))), g.hash[hc(v)] == v)
+//@   ensures  [edges] sameEdges(g)
+//@   ensures  [frame] frameG(g)
+//@   assigns  Graph.adjacencyOut, Graph.adjacencyIn, Graph.hash, Outer, HashM, Inner
+
+//@ func (*Graph).AddOverwrite
+//@   requires wf0(g)
+//@   ensures  wf(g) && sameRefs(g)
+//@   ensures  result == v
+//@   ensures  [verts] forall(k, any, has(g.hash, k) == (old(has(g.hash, k)) || k == hc(v)))
+//@   ensures  [others-kept] forall(k, any, imp(old(has(g.hash, k)) && k != hc(v), g.hash[k] == old(g.hash[k])))
+//@   ensures  [overwrites] g.hash[hc(v)] == v
+//@   ensures  [edges] sameEdges(g)
+//@   ensures  [frame] frameG(g)
+//@   assigns  Graph.adjacencyOut, Graph.adjacencyIn, Graph.hash, Outer, HashM, Inner
+
+//@ func (*Graph).Remove
+//@   requires wf0(g)
+//@   ensures  wf0(g) && sameRefs(g) && zerog(g) == old(zerog(g))
+//@   ensures  result == v
+//@   ensures  [verts] forall(k, any, has(g.hash, k) == (old(has(g.hash, k)) && k != hc(v)))
+//@   ensures  [reps] forall(k, any, imp(has(g.hash, k), g.hash[k] == old(g.hash[k])))
+//@   ensures  [edges] forall(a, any, b, any, edge(g, a, b) == (old(edge(g, a, b)) && a != hc(v) && b != hc(v)) && imp(edge(g, a, b), wgt(g, a, b) == old(wgt(g, a, b))))
+//@   ensures  [frame] frameG(g)
+//@   assigns  Outer, HashM, Inner
+//@   loop 1 invariant g.adjacencyOut == old(g.adjacencyOut) && g.adjacencyIn == old(g.adjacencyIn) && g.hash == old(g.hash)
+//@   loop 1 invariant rmap1 == old(g.adjacencyOut[hc(v)]) && h == hc(v)
+//@   loop 1 invariant unchanged(g.hash) && unchanged(g.adjacencyOut) && unchanged(g.adjacencyIn)
+//@   loop 1 invariant forall(k, any, imp(old(has(g.hash, k)), unchanged(g.adjacencyOut[k])))
+//@   loop 1 invariant forall(o, any, x, any, imp(old(has(g.hash, o)), has(g.adjacencyIn[o], x) == (old(has(g.adjacencyIn[o], x)) && !(x == h && in(o, seen1))) && imp(has(g.adjacencyIn[o], x), g.adjacencyIn[o][x] == old(g.adjacencyIn[o][x]))))
+//@   loop 1 invariant forall(m, Inner, imp(old(allocated(m)) && !old(infoot(g, m)), unchanged(m)))
+//@   loop 1 invariant forall(m, Outer, imp(old(allocated(m)) && m != old(g.adjacencyOut) && m != old(g.adjacencyIn), unchanged(m)))
+//@   loop 1 invariant forall(m, HashM, imp(old(allocated(m)) && m != old(g.hash), unchanged(m)))
+//@   loop 2 invariant g.adjacencyOut == old(g.adjacencyOut) && g.adjacencyIn == old(g.adjacencyIn) && g.hash == old(g.hash)
+//@   loop 2 invariant rmap2 == old(g.adjacencyIn[hc(v)]) && h == hc(v)
+//@   loop 2 invariant unchanged(g.hash) && unchanged(g.adjacencyIn)
+//@   loop 2 invariant forall(k, any, has(g.adjacencyOut, k) == (old(has(g.adjacencyOut, k)) && k != h) && imp(k != h, g.adjacencyOut[k] == old(g.adjacencyOut[k])))
+//@   loop 2 invariant forall(o, any, x, any, imp(old(has(g.hash, o)), has(g.adjacencyIn[o], x) == (old(has(g.adjacencyIn[o], x)) && !(x == h && old(has(g.adjacencyOut[h], o)))) && imp(has(g.adjacencyIn[o], x), g.adjacencyIn[o][x] == old(g.adjacencyIn[o][x]))))
+//@   loop 2 invariant forall(o, any, x, any, imp(old(has(g.hash, o)), has(old(g.adjacencyOut[o]), x) == (old(has(g.adjacencyOut[o], x)) && !(x == h && in(o, seen2))) && imp(has(old(g.adjacencyOut[o]), x), vals(old(g.adjacencyOut[o]))[x] == old(g.adjacencyOut[o][x]))))
+//@   loop 2 invariant forall(m, Inner, imp(old(allocated(m)) && !old(infoot(g, m)), unchanged(m)))
+//@   loop 2 invariant forall(m, Outer, imp(old(allocated(m)) && m != old(g.adjacencyOut) && m != old(g.adjacencyIn), unchanged(m)))
+//@   loop 2 invariant forall(m, HashM, imp(old(allocated(m)) && m != old(g.hash), unchanged(m)))
+
+//@ func (*Graph).Vertex
+//@   requires wf0(g)
+//@   ensures  wf(g) && sameRefs(g) && sameVerts(g) && sameEdges(g) && frameG(g)
+//@   ensures  result == old(g.hash[id])
+//@   assigns  Graph.adjacencyOut, Graph.adjacencyIn, Graph.hash, Outer, HashM
+
+//@ func (*Graph).AddEdge
+//@   requires wf0(g)
+//@   requires [endpoints-present] has(g.hash, hc(v1)) && has(g.hash, hc(v2))
+//@   ensures  wf(g) && sameRefs(g) && sameVerts(g)
+//@   ensures  [edges] forall(a, any, b, any, edge(g, a, b) == (old(edge(g, a, b)) || (a == hc(v1) && b == hc(v2))))
+//@   ensures  [weights] forall(a, any, b, any, imp(edge(g, a, b), wgt(g, a, b) == ite(a == hc(v1) && b == hc(v2), 1, old(wgt(g, a, b)))))
+//@   ensures  [frame] frameG(g)
+//@   assigns  Graph.adjacencyOut, Graph.adjacencyIn, Graph.hash, Outer, HashM, Inner
+
+//@ func (*Graph).AddEdgeWeighted
+//@   requires wf0(g)
+//@   requires [endpoints-present] has(g.hash, hc(v1)) && has(g.hash, hc(v2))
+//@   ensures  wf(g) && sameRefs(g) && sameVerts(g)
+//@   ensures  [edges] forall(a, any, b, any, edge(g, a, b) == (old(edge(g, a, b)) || (a == hc(v1) && b == hc(v2))))
+//@   ensures  [weights] forall(a, any, b, any, imp(edge(g, a, b), wgt(g, a, b) == ite(a == hc(v1) && b == hc(v2), weight, old(wgt(g, a, b)))))
+//@   ensures  [frame] frameG(g)
+//@   assigns  Graph.adjacencyOut, Graph.adjacencyIn, Graph.hash, Outer, HashM, Inner
+
+//@ func (*Graph).RemoveEdge
+//@   requires wf0(g)
+//@   ensures  wf(g) && sameRefs(g)
+//@   ensures  imp(!old(zerog(g)), sameVerts(g))
+//@   ensures  [edges] forall(a, any, b, any, edge(g, a, b) == (old(edge(g, a, b)) && !(a == hc(v1) && b == hc(v2))) && imp(edge(g, a, b), wgt(g, a, b) == old(wgt(g, a, b))))
+//@   ensures  [frame] frameG(g)
+//@   assigns  Graph.adjacencyOut, Graph.adjacencyIn, Graph.hash, Outer, HashM, Inner
